@@ -103,6 +103,7 @@ Accept(e) ==
     CASE e.ev = "RoundTrip" -> (Prop = "C01" => OK01(e))
       [] e.ev = "Lens"      -> (Prop = "C02" => OK02(e))
       [] e.ev = "LensShape" -> (Prop = "C02" => OK02Shape(e))
+      [] e.ev = "LensHuge"  -> (Prop = "C02" => (e.body_hi > 0 => IsErrE(e.encode_len, "InvalidVarByteInt")))
       [] e.ev = "Enc"       -> (CASE Prop = "C09" -> OK09(e) [] Prop = "C10" -> OK10(e) [] OTHER -> TRUE)
       [] e.ev = "Coverage"  -> (Prop = "C10" => CoverageOK(e))
       [] e.ev = "End"       -> l = Len(Rec)
